@@ -1,6 +1,7 @@
 package main
 
 import (
+	"os"
 	"fmt"
 	"go/constant"
 	"go/token"
@@ -276,6 +277,20 @@ func descendsFrom(v ssa.Value, fn *ssa.Function) (root ssa.Value, steps int, ok 
 						return nil, 0, false
 					}
 				}
+				// a fresh node wrapped around what the caller holds (a composite
+				// literal): the tree-typed values put into its fields
+				if fa, ok := r.(*ssa.FieldAddr); ok && fa.X == ssa.Value(x) && fa.Referrers() != nil {
+					for _, r2 := range *fa.Referrers() {
+						if s, ok := r2.(*ssa.Store); ok && s.Addr == ssa.Value(fa) && isTreeType(s.Val.Type()) {
+							if k, isK := s.Val.(*ssa.Const); isK && k.Value == nil {
+								continue
+							}
+							if !visit(s.Val) {
+								return nil, 0, false
+							}
+						}
+					}
+				}
 			}
 			if cnt == 0 {
 				return nil, 0, false
@@ -468,9 +483,27 @@ func runRec(c *Check, rule string, entries []*ssa.Function, only func(*ssa.Funct
 	nBefore := len(c.Obs)
 	seedFrom := func(comp []*ssa.Function) {
 		seed := sccSeed(comp)
+		// where the cycle lives: file of its members and how many top-level
+		// functions it has (a cycle renamed and re-signatured as a whole is still
+		// "the cycle of six functions in xsd.go")
+		files := map[string]bool{}
+		nTop := 0
+		for _, f := range comp {
+			if f.Parent() == nil {
+				nTop++
+				files[filepath.Base(c.P.fnFile(f))] = true
+			}
+		}
+		var fl []string
+		for k := range files {
+			fl = append(fl, k)
+		}
+		sort.Strings(fl)
+		loose := fmt.Sprintf("in:%s#%d", strings.Join(fl, "+"), nTop)
 		for _, o := range c.Obs[nBefore:] {
 			if o.ShapeSeed == "" {
 				o.ShapeSeed = seed
+				o.LooseSeed = loose
 			}
 		}
 		nBefore = len(c.Obs)
@@ -676,6 +709,56 @@ func checkGuardRow(c *Check, rule, key, pos string, comp []*ssa.Function, in map
 	if nChecked == 0 {
 		c.Flagf(rule, key, pos, "guard function %s makes no intra-cycle call any more: the cycle must be re-read", row.Func)
 	}
+	// the guard ends only the rounds that pass through it: what is left of the
+	// cycle without the guard function must not come back to itself (except by
+	// steps that descend a finite tree)
+	// (Whether *every* round passes the guard cannot be decided on this graph:
+	// the double-dispatch hub `Visit(Element)` joins rounds that the dynamic types
+	// keep apart. What can be decided exactly is the shortest round: a function of
+	// the cycle that calls itself, directly or from a call-back it creates, without
+	// handing down something smaller.)
+	if row.Kind == "visited" || row.Kind == "counter" {
+		bad := selfRound(comp, in, g, gf)
+		c.Cond(bad == "", rule, key+"|no self-call beside the guard", pos,
+			fmt.Sprintf("no function of the cycle other than %s calls itself (directly or from a call-back it creates) without descending", gf.Name()),
+			bad)
+	}
+}
+
+// selfRound: a function of the cycle, other than the guard function, that comes
+// back to itself directly or through a closure it creates, by a call that does
+// not descend a finite tree.
+func selfRound(comp []*ssa.Function, in map[*ssa.Function]bool, g *repoGraph, skip *ssa.Function) string {
+	plain := func(e recEdge) bool {
+		if _, isCall := e.Site.(ssa.CallInstruction); !isCall {
+			return false
+		}
+		// (the same function with the same node handed on makes no progress
+		// either, so handing on does not count here)
+		d, _ := edgeDescends(e)
+		return !d
+	}
+	for _, f := range comp {
+		if f == skip || withinFn(f, skip) {
+			continue
+		}
+		for _, e := range g.succ[f] {
+			if !in[e.To] {
+				continue
+			}
+			if e.To == f && plain(e) {
+				return fmt.Sprintf("%s calls itself at %s without handing down something smaller, and the call does not pass through the guard function %s: the guard does not end this round", fnName(f), g.p.pos(e.Site.Pos()), skip.Name())
+			}
+			if _, isMC := e.Site.(*ssa.MakeClosure); isMC && e.To.Parent() == f {
+				for _, e2 := range g.succ[e.To] {
+					if e2.To == f && plain(e2) {
+						return fmt.Sprintf("%s is called again from the call-back it creates (%s) without handing down something smaller, and the round does not pass through the guard function %s: the guard does not end it", fnName(f), g.p.pos(e2.Site.Pos()), skip.Name())
+					}
+				}
+			}
+		}
+	}
+	return ""
 }
 
 // containerMatches: v (a map/slice value or address) belongs to the visited
@@ -1227,7 +1310,8 @@ func autoGuard(comp []*ssa.Function, in map[*ssa.Function]bool, g *repoGraph, re
 // component has no cycle except cycles made of structural edges only (each of
 // which descends a finite tree: between two passes through the guard they end).
 func acyclicWithout(comp []*ssa.Function, in map[*ssa.Function]bool, g *repoGraph, skip *ssa.Function) bool {
-	reach := func(from, to *ssa.Function) bool {
+	// reach over the edges that keep accepts
+	reach := func(from, to *ssa.Function, keep func(recEdge) bool) bool {
 		seen := map[*ssa.Function]bool{}
 		var visit func(f *ssa.Function) bool
 		visit = func(f *ssa.Function) bool {
@@ -1239,7 +1323,7 @@ func acyclicWithout(comp []*ssa.Function, in map[*ssa.Function]bool, g *repoGrap
 			}
 			seen[f] = true
 			for _, e := range g.succ[f] {
-				if !in[e.To] || e.To == skip {
+				if !in[e.To] || e.To == skip || (keep != nil && !keep(e)) {
 					continue
 				}
 				if visit(e.To) {
@@ -1261,13 +1345,60 @@ func acyclicWithout(comp []*ssa.Function, in map[*ssa.Function]bool, g *repoGrap
 			if ok, _ := edgeDescends(e); ok {
 				continue
 			}
+			if edgeHandsOn(e) {
+				// the same node handed on (double dispatch: Accept(e) → Visit(e)): fine
+				// on a round that also descends, not on a round made of such edges only
+				if reach(e.To, f, func(x recEdge) bool {
+					d, _ := edgeDescends(x)
+					return !d && edgeHandsOn(x)
+				}) {
+					if os.Getenv("VERIF_DEBUG_REC") != "" {
+						fmt.Fprintf(os.Stderr, "REC-DEBUG a round of hand-over edges only avoids %s: %s -> %s\n", fnName(skip), fnName(f), fnName(e.To))
+						for _, f2 := range comp {
+							for _, e2 := range g.succ[f2] {
+								if d, _ := edgeDescends(e2); in[e2.To] && e2.To != skip && f2 != skip && !d && edgeHandsOn(e2) {
+									fmt.Fprintf(os.Stderr, "REC-DEBUG   hand-over edge %s -> %s at %s\n", fnName(f2), fnName(e2.To), g.p.pos(e2.Site.Pos()))
+								}
+							}
+						}
+					}
+					return false
+				}
+				continue
+			}
 			// a non-structural edge must not lie on a cycle that avoids the guard
-			if reach(e.To, f) {
+			if reach(e.To, f, nil) {
+				if os.Getenv("VERIF_DEBUG_REC") != "" {
+					_, why := edgeDescends(e)
+					fmt.Fprintf(os.Stderr, "REC-DEBUG non-structural edge on a cycle avoiding %s: %s -> %s: %s\n", fnName(skip), fnName(f), fnName(e.To), why)
+				}
 				return false
 			}
 		}
 	}
 	return true
+}
+
+// edgeHandsOn: the call passes one of the caller's own tree-typed parameters
+// (or its receiver) on unchanged — the node itself, not something below it.
+func edgeHandsOn(e recEdge) bool {
+	s, ok := e.Site.(ssa.CallInstruction)
+	if !ok {
+		return false
+	}
+	args := s.Common().Args
+	if s.Common().IsInvoke() {
+		args = append([]ssa.Value{s.Common().Value}, args...)
+	}
+	for _, a := range args {
+		if !isTreeType(a.Type()) {
+			continue
+		}
+		if _, n, ok := descendsFrom(a, e.From); ok && n == 0 {
+			return true
+		}
+	}
+	return false
 }
 
 // testAndSet describes a helper that looks a key up in a map and inserts it when
@@ -1370,11 +1501,7 @@ func helperGuarded(p *Program, f *ssa.Function, call ssa.Instruction) (bool, str
 		if ts == nil || !instrDominates(hc, call) || hc.Referrers() == nil {
 			return
 		}
-		for _, r := range *hc.Referrers() {
-			ex, ok := r.(*ssa.Extract)
-			if !ok || ex.Index != ts.boolIndex {
-				continue
-			}
+		for _, ex := range boolResults(hc, ts) {
 			for _, br := range branchesOn(ex) {
 				foundSucc, absentSucc := br.TrueSucc, br.FalseSucc
 				if !ts.foundIs {
@@ -1404,13 +1531,13 @@ func helperGuarded(p *Program, f *ssa.Function, call ssa.Instruction) (bool, str
 			if feasibleReach(f, nil, nil, isCall, func(j ssa.Instruction) bool { return j == ssa.Instruction(hc) }) {
 				return
 			}
-			for _, r := range *hc.Referrers() {
-				ex, ok := r.(*ssa.Extract)
-				if !ok || ex.Index != ts.boolIndex {
+			for _, exv := range boolResults(hc, ts) {
+				ex, ok := exv.(ssa.Instruction)
+				if !ok {
 					continue
 				}
 				// continue after the Extract with "found" known
-				if !feasibleReach(f, ex, map[ssa.Value]bool{ex: ts.foundIs}, isCall, nil) {
+				if !feasibleReach(f, ex, map[ssa.Value]bool{exv: ts.foundIs}, isCall, nil) {
 					found = true
 					why = fmt.Sprintf("every feasible path to the call passes the test-and-set helper %s, and none continues to it once the helper reported the key as already present", fnName(ts.fn))
 				}
@@ -1605,4 +1732,22 @@ func isGatherAccumulator(v ssa.Value, depth int, seen map[ssa.Value]bool) bool {
 		}
 	}
 	return false
+}
+
+// boolResults: the value(s) holding the bool outcome of a call of a
+// test-and-set helper — the call itself when the bool is its only result,
+// otherwise the extracts of that result.
+func boolResults(hc *ssa.Call, ts *testAndSet) []ssa.Value {
+	if ts.fn.Signature.Results().Len() == 1 {
+		return []ssa.Value{hc}
+	}
+	var out []ssa.Value
+	if hc.Referrers() != nil {
+		for _, r := range *hc.Referrers() {
+			if ex, ok := r.(*ssa.Extract); ok && ex.Index == ts.boolIndex {
+				out = append(out, ex)
+			}
+		}
+	}
+	return out
 }
